@@ -1679,7 +1679,18 @@ class SoftAbsRegularizedPositiveDefiniteMatrix(
         num_j_mtx += np.diag(self.grad_softabs(self.unreg_eigval))
         den_j_mtx = self.unreg_eigval[:, None] - self.unreg_eigval[None, :]
         np.fill_diagonal(den_j_mtx, 1)
-        j_mtx = num_j_mtx / den_j_mtx
+        # For (nearly) coincident eigenvalues the divided difference is 0 / 0 or dominated
+        # by rounding error so use its limit, the derivative of softabs, instead
+        abs_eigval = np.abs(self.unreg_eigval)
+        is_close = np.abs(den_j_mtx) <= 1e-6 * (
+            1 + abs_eigval[:, None] + abs_eigval[None, :]
+        )
+        grad_eigval = self.grad_softabs(self.unreg_eigval)
+        j_mtx = np.where(
+            is_close,
+            0.5 * (grad_eigval[:, None] + grad_eigval[None, :]),
+            num_j_mtx / np.where(is_close, 1, den_j_mtx),
+        )
         e_vct = (self.eigvec.T @ vector) / self.eigval
         return -((self.eigvec @ (np.outer(e_vct, e_vct) * j_mtx)) @ self.eigvec.T)
 
